@@ -1297,6 +1297,20 @@ func ruleUsedMarkingMatchesEmission(c *Ctx, rule string) {
 							if i < len(cs.common.Args) && resolve(cs.arg(i)) == resolve(mval) {
 								fills = true
 							}
+							// the set handed over inside a carrier struct (collector := &importCollector{referenced: set, ...})
+							if i < len(cs.common.Args) {
+								if cal2, isAl := cs.arg(i).(*ssa.Alloc); isAl && cal2.Referrers() != nil {
+									for _, r := range *cal2.Referrers() {
+										if fa, isFA := r.(*ssa.FieldAddr); isFA && fa.Referrers() != nil {
+											for _, rr := range *fa.Referrers() {
+												if st2, isSt := rr.(*ssa.Store); isSt && st2.Addr == ssa.Value(fa) && resolve(st2.Val) == resolve(mval) {
+													fills = true
+												}
+											}
+										}
+									}
+								}
+							}
 						}
 						if typeIdx >= 0 && typeIdx < len(cs.common.Args) && fills {
 							t := strings.Join(s.eval(cs.arg(typeIdx)), "|")
@@ -2026,6 +2040,38 @@ func ruleSourcesSeededFirst(c *Ctx, rule string) {
 								for _, r2 := range *u.Referrers() {
 									if mc, ok := r2.(*ssa.MakeClosure); ok && strings.Contains(mc.Fn.Name(), "Iter") {
 										okQ = true
+									}
+								}
+							}
+						}
+					}
+				}
+			}
+		}
+		// the walk's state carried in a struct: the queue is a field, the iteration a method that ranges over that field's Iter
+		if !okQ {
+			if ld, isL := cs.arg(0).(*ssa.UnOp); isL {
+				if fa, isF := ld.X.(*ssa.FieldAddr); isF {
+					key := fieldKey(fa)
+					for _, g := range pkgFuncs(L, genPkg) {
+						for _, b := range g.Blocks {
+							for _, in := range b.Instrs {
+								mc, isMC := in.(*ssa.MakeClosure)
+								if !isMC || !strings.Contains(mc.Fn.Name(), "Iter") || len(mc.Bindings) != 1 {
+									continue
+								}
+								if l2, isL2 := mc.Bindings[0].(*ssa.UnOp); isL2 {
+									if fa2, isF2 := l2.X.(*ssa.FieldAddr); isF2 && fieldKey(fa2) == key {
+										// and that method is what topologicalSortIter hands out
+										for _, r := range returnsOf(ts) {
+											if rmc, isR := resolve(r.Results[0]).(*ssa.MakeClosure); isR {
+												if bf, isB := rmc.Fn.(*ssa.Function); isB && strings.HasPrefix(bf.Synthetic, "bound method wrapper") {
+													if m, isM := bf.Object().(*types.Func); isM && L.Prog.FuncValue(m) == g {
+														okQ = true
+													}
+												}
+											}
+										}
 									}
 								}
 							}
